@@ -16,6 +16,7 @@ package main
 // (headers = the handler context's request headers without `_opid`, sorted pairs in hex)
 
 import (
+	"bytes"
 	"encoding/hex"
 	"fmt"
 	"reflect"
@@ -50,7 +51,7 @@ func (b *memBroker) publish(topic string, data []byte) {
 			b.last = append(b.last, "nocb")
 			continue
 		}
-		buf := &thrift.TMemoryBuffer{Buffer: bytesBuffer(data[4:])}
+		buf := &thrift.TMemoryBuffer{Buffer: bytes.NewBuffer(data[4:])}
 		if err := s.cb(buf); err != nil {
 			b.last = append(b.last, "cb:err")
 		} else {
